@@ -1,11 +1,8 @@
-(* C06, lexer half, round 7:
-   (1) the EXPONENT rule of LexNextRune: a '+' / '-' directly after an atom that ends in e / E continues
-       the atom exactly when the text buffered in front of the e / E is a mantissa (generated
-       DecimalRegex / FloatRegex); after any other atom ending in e / E (an identifier, a hex literal)
-       the sign opens the operator mode, i.e. it is handled by the sign rule of Proofs/LexerSign.v.
-       For every text: the rune the rule looks back at is the last rune of the pending atom.
-   (2) blanks around the operators that go through the other lexer modes - '/' and '/=' (first forward
-       slash state), ':=' (fresh-assign-or-colon state) - do not change the tokens. *)
+(* C06, lexer half, round 7: the EXPONENT rule of LexNextRune.  A '+' / '-' directly after an atom that
+   ends in e / E continues the atom exactly when the text buffered in front of the e / E is a mantissa
+   (generated DecimalRegex / FloatRegex); after any other atom ending in e / E (an identifier, a hex
+   literal) the sign opens the operator mode, i.e. it is handled by the sign rule of Proofs/LexerSign.v.
+   Here: with the look-back rune given; Proofs/LexerExponent.v removes that premise. *)
 From Coq Require Import ZArith List Bool Lia.
 From ZV Require Import Model.Regex Generated.LexTables Model.Lexer Model.LexerPrev Proofs.LexerProofs
   Proofs.SugarTokens Proofs.LexerRing Proofs.LexerSign Proofs.OpSpacing.
@@ -68,75 +65,15 @@ Proof.
   - set (X := ring_push 45 s) in *. unfold lex_normal; simpl. rewrite Hsci. reflexivity.
 Qed.
 
-(* every reachable state: the operator mode and the unquote mode are entered with an empty buffer *)
-Definition einv (s : lstate) : Prop :=
-  (l_state s = LBuiltinOperator \/ l_state s = LUnquote) -> l_buffer s = [].
-
-Ltac crunchL :=
-  repeat (match goal with
-          | |- context [if ?c then _ else _] => destruct c
-          | |- context [match ?l with [] => _ | _ :: _ => _ end] => destruct l
-          | |- context [match decode_atom ?x with _ => _ end] => destruct (decode_atom x)
-          | |- context [match escape_char ?x with _ => _ end] => destruct (escape_char x)
-          end; simpl).
-
-Ltac fin_last :=
-  first [ left; reflexivity | right; reflexivity | right; apply last_last
-        | right; match goal with |- last (?z :: ?l ++ [?r]) _ = _ => apply (last_last (z :: l) r) end ].
-
-Ltac fin_inv :=
-  try exact I;
-  split; [intros [X|X]; first [discriminate X | reflexivity] | intros X; first [discriminate X | fin_last]].
-
-(* one step: the invariant is kept, and a normal-mode state has either nothing pending or an atom
-   whose last rune is the rune just read *)
-Lemma lex_rune_last : forall s r, einv s ->
-  match lex_rune s r with
-  | LOk s' => einv s' /\ (l_state s' = LNormal -> l_buffer s' = [] \/ last (l_buffer s') 0 = r)
-  | LErr _ => True
-  end.
-Proof.
-  intros s r HI. destruct s as [st pr tk bf pt ppt pb ln pi rg]. unfold einv in HI. simpl in HI.
-  unfold lex_rune. simpl.
-  destruct st; simpl;
-    try (assert (bf = []) as -> by (apply HI; auto));
-    unfold lex_normal, lex_firstslash, lex_freshassign, lex_builtin, lex_normal, with_dump, dump_buffer, dump_as,
-      append_token, write_rune, write_runes, einv; simpl;
-    crunchL; fin_inv.
-Qed.
-
-Lemma einv_init : einv init_lstate.
-Proof. unfold einv; simpl. intros [H|H]; discriminate. Qed.
-
-Lemma lex_all_einv : forall t s s', einv s -> lex_all s t = LOk s' -> einv s'.
-Proof.
-  induction t as [|r t IH]; intros s s' HI H; simpl in H; [inversion H; subst; exact HI|].
-  pose proof (lex_rune_last s r HI) as G. destruct (lex_rune s r) as [a|a]; [|discriminate].
-  eapply IH; [apply G|exact H].
-Qed.
-
-(* after ANY text: a pending atom in normal mode ends in the last rune of the text *)
-Theorem buffer_ends_in_last_rune : forall t s, lex_all init_lstate t = LOk s -> l_state s = LNormal ->
-  l_buffer s <> [] -> last (l_buffer s) 0 = last t 0.
-Proof.
-  intros t s H HS HB. destruct t as [|r t] using rev_ind; [inversion H; subst; contradiction HB; reflexivity|].
-  clear IHt. rewrite last_last. rewrite lex_all_app in H.
-  destruct (lex_all init_lstate t) as [s0|s0] eqn:E0; [|discriminate]. simpl in H.
-  pose proof (lex_rune_last s0 r (lex_all_einv _ _ _ einv_init E0)) as G.
-  destruct (lex_rune s0 r) as [a|a]; [|discriminate]. inversion H; subst a.
-  destruct G as [_ G]. destruct (G HS) as [G1|G1]; [contradiction|exact G1].
-Qed.
-
 (* THE exponent rule.  After any text t that leaves the lexer in normal mode with a pending atom
    m ++ [e], e in {e, E}, a sign c in {+, -}:
    - mantissa m (generated DecimalRegex / FloatRegex): c is appended to the atom, no token is emitted;
    - otherwise (identifier "there", hex "0x1e", ...): the atom is decoded and queued and the lexer is in the
      operator mode with c pending and e recorded as the rune in front of it - the situation the sign
      rule decides; if the atom does not decode the lexer reports the error *)
-Theorem exponent_rule_lemma : forall t s m e c,
+Theorem exponent_rule_core : forall t s m e c,
   lex_all init_lstate t = LOk s -> l_state s = LNormal -> l_buffer s = m ++ [e] ->
-  e = 101 \/ e = 69 -> c = 43 \/ c = 45 ->
-  last t 0 = e /\
+  e = 101 \/ e = 69 -> c = 43 \/ c = 45 -> last t 0 = e ->
   if mantissa m
   then exists s', lex_all s [c] = LOk s' /\ l_state s' = LNormal /\ l_buffer s' = m ++ [e; c] /\
                   l_tokens s' = l_tokens s
@@ -146,11 +83,7 @@ Theorem exponent_rule_lemma : forall t s m e c,
        | None => exists s', lex_all s [c] = LErr s' /\ l_tokens s' = l_tokens s
        end.
 Proof.
-  intros t s m e c HL HS HB He Hc.
-  assert (HE : last t 0 = e).
-  { rewrite <- (buffer_ends_in_last_rune t s HL HS); [rewrite HB; apply last_last|].
-    rewrite HB. destruct m; discriminate. }
-  split; [exact HE|].
+  intros t s m e c HL HS HB He Hc HE.
   pose proof (twoback_is_previous_rune_lemma t s c HL) as HT. rewrite HE in HT.
   assert (He' : (e =? 101) || (e =? 69) = true) by (destruct He as [-> | ->]; reflexivity).
   pose proof (sci_prefix_mantissa m e He) as HM. rewrite <- HB in HM.
@@ -175,14 +108,13 @@ Qed.
 Lemma e_not_signed : can_start_signed_after 101 = false /\ can_start_signed_after 69 = false.
 Proof. split; vm_compute; reflexivity. Qed.
 
-Theorem exponent_rule_else_operator : forall t s s1 m e d,
+Theorem exponent_rule_else_core : forall t s s1 m e d,
   lex_all init_lstate t = LOk s -> l_state s = LNormal -> l_buffer s = m ++ [e] ->
-  e = 101 \/ e = 69 -> mantissa m = false -> dump_buffer s = Some s1 -> 48 <= d <= 57 ->
+  e = 101 \/ e = 69 -> last t 0 = e -> mantissa m = false -> dump_buffer s = Some s1 -> 48 <= d <= 57 ->
   exists s', lex_all s [45; d] = LOk s' /\ l_state s' = LNormal /\ l_buffer s' = [d] /\
              l_tokens s' = l_tokens s1 ++ [mkTok TSymbol [45]].
 Proof.
-  intros t s s1 m e d HL HS HB He HM HD Hd.
-  destruct (exponent_rule_lemma t s m e 45 HL HS HB He (or_intror eq_refl)) as [HE _].
+  intros t s s1 m e d HL HS HB He HE HM HD Hd.
   assert (Hsci : ((last t 0 =? 101) || (last t 0 =? 69)) && sci_prefix_ok (l_buffer s) = false).
   { rewrite HB, (sci_prefix_mantissa m e He), HM. apply andb_false_r. }
   destruct (sign_rule_lemma t s s1 d HL HS HD Hsci Hd) as (s' & L & S' & X).
@@ -191,244 +123,3 @@ Proof.
   destruct He as [-> | ->]; [rewrite N1 in X|rewrite N2 in X]; exact X.
 Qed.
 
-(* ================= 2. spacing of / , /= and := ================= *)
-
-(* --- the first-forward-slash mode --- *)
-Definition slash_open (r : Z) (s : lstate) : lstate :=
-  set_prevrune 47 (set_state LBuiltinOperator (ring_push r (set_state LFirstFwdSlash (ring_push 47 s)))).
-
-Lemma step_slash : forall s, l_state s = LNormal ->
-  lex_rune s 47 = LOk (set_state LFirstFwdSlash (ring_push 47 s)).
-Proof.
-  intros s H. rewrite lex_rune_body. unfold lex_body.
-  replace (l_state (ring_push 47 s)) with LNormal by (ds s; simpl in *; congruence). reflexivity.
-Qed.
-
-Lemma dump_slash_open : forall r s,
-  dump_buffer (slash_open r s) = match dump_buffer s with Some x => Some (slash_open r x) | None => None end.
-Proof.
-  intros r s; ds s. unfold dump_buffer, slash_open; simpl. destruct bf; [reflexivity|].
-  destruct (decode_atom _); reflexivity.
-Qed.
-
-Lemma step_slash2 : forall s r, (r =? 47) = false -> (r =? 42) = false ->
-  lex_rune (set_state LFirstFwdSlash (ring_push 47 s)) r =
-    match dump_buffer s with Some x => lex_builtin (slash_open r x) r | None => LErr (slash_open r s) end.
-Proof.
-  intros s r H1 H2. rewrite lex_rune_body. unfold lex_body.
-  replace (l_state (ring_push r (set_state LFirstFwdSlash (ring_push 47 s)))) with LFirstFwdSlash by (ds s; reflexivity).
-  unfold lex_firstslash. rewrite H1, H2. unfold with_dump.
-  change (set_prevrune 47 (set_state LBuiltinOperator (ring_push r (set_state LFirstFwdSlash (ring_push 47 s)))))
-    with (slash_open r s).
-  rewrite dump_slash_open. destruct (dump_buffer s); reflexivity.
-Qed.
-
-Lemma builtin_slash_plain : forall x r, re_match re_BuiltinOpRegex [47; r] = false ->
-  lex_builtin (slash_open r x) r = lex_normal (append_token (mkTok TSymbol [47]) (set_state LNormal (slash_open r x))) r.
-Proof.
-  intros x r H. unfold lex_builtin.
-  replace (l_prevrune (set_state LNormal (slash_open r x))) with 47 by (ds x; reflexivity).
-  change (47 =? 45) with false. cbn [andb]. rewrite H. reflexivity.
-Qed.
-
-Lemma builtin_slash_eq : forall x,
-  lex_builtin (slash_open 61 x) 61 = LOk (append_token (mkTok TSymbol [47; 61]) (set_state LNormal (slash_open 61 x))).
-Proof.
-  intros x. unfold lex_builtin.
-  replace (l_prevrune (set_state LNormal (slash_open 61 x))) with 47 by (ds x; reflexivity).
-  change (47 =? 45) with false. cbn [andb]. rewrite slash_eq_merge. reflexivity.
-Qed.
-
-Lemma twoback_3 : forall x a b c, ring_wf x ->
-  twoback (ring_push c (ring_push b (ring_push a x))) = b.
-Proof. intros x a b c W. apply twoback_push_push. apply ring_push_wf. exact W. Qed.
-
-(* '/' followed by a rune r that neither opens a comment nor completes '/=' *)
-Lemma junction_slash : forall s r,
-  l_state s = LNormal -> ring_wf s -> (r =? 47) = false -> (r =? 42) = false ->
-  re_match re_BuiltinOpRegex [47; r] = false ->
-  Junction (lex_all s ([47] ++ [r])) (lex_all s ([32; 47; 32] ++ [r])).
-Proof.
-  intros s r Hst W H47 H42 Hnm.
-  simpl app. simpl lex_all.
-  rewrite (step_slash s Hst), (step_slash2 s r H47 H42), (step_space s Hst).
-  destruct (dump_buffer s) as [x|] eqn:D; [|simpl; ds s; reflexivity].
-  destruct (dump_result _ _ D) as (Bx & Sx & Px & Rx).
-  assert (ring_wf x) as Wx by (eapply ring_wf_ringof; [symmetry; exact Rx|exact W]).
-  assert (l_state x = LNormal) as Stx by congruence.
-  rewrite (builtin_slash_plain x r Hnm).
-  (* spaced *)
-  set (x1 := ring_push 32 x).
-  assert (l_state x1 = LNormal) as S1 by (unfold x1; ds x; exact Stx).
-  assert (l_buffer x1 = []) as B1 by (unfold x1; ds x; exact Bx).
-  rewrite (step_slash x1 S1), (step_slash2 x1 32 eq_refl eq_refl), (dump_empty x1 B1).
-  rewrite (builtin_slash_plain x1 32 slash_space_no_merge).
-  set (u3 := append_token (mkTok TSymbol [47]) (set_state LNormal (slash_open 32 x1))).
-  assert (lex_normal u3 32 = LOk u3) as E3.
-  { unfold lex_normal; simpl. unfold with_dump. rewrite dump_empty; [reflexivity|unfold u3, x1; ds x; exact Bx]. }
-  rewrite E3. clear E3.
-  rewrite (step_normal u3 r) by (unfold u3; ds x; reflexivity).
-  match goal with |- Junction ?a (match ?b with _ => _ end) => assert (Rres a b) as HR end.
-  { apply lex_normal_R.
-    - ds x; reflexivity.
-    - unfold u3, x1, R; ds x; simpl in *; subst. repeat split; intros; discriminate.
-    - unfold T.
-      assert (twoback (append_token (mkTok TSymbol [47]) (set_state LNormal (slash_open r x))) = 47) as ->.
-      { transitivity (twoback (ring_push r (ring_push 47 x))); [ds x; reflexivity|apply twoback_push_push; exact Wx]. }
-      assert (twoback (ring_push r u3) = 32) as ->.
-      { transitivity (twoback (ring_push r (ring_push 32 (ring_push 47 (ring_push 32 x))))); [unfold u3, x1; ds x; reflexivity|].
-        apply twoback_push_push. repeat apply ring_push_wf. exact Wx. }
-      exact cls_47. }
-  destruct (lex_normal _ r) as [u|u]; destruct (lex_normal _ r) as [u'|u']; simpl in *; try contradiction; [exact HR|apply HR].
-Qed.
-
-Theorem op_spacing_slash : forall a b s,
-  lex_all init_lstate a = LOk s -> l_state s = LNormal ->
-  hd 10 (b ++ [10]) <> 47 -> hd 10 (b ++ [10]) <> 42 ->
-  re_match re_BuiltinOpRegex [47; hd 10 (b ++ [10])] = false ->
-  lex_text (a ++ [47] ++ b ++ [10]) = lex_text (a ++ [32; 47; 32] ++ b ++ [10]).
-Proof.
-  intros a b s Ha Hst H47 H42 Hnm.
-  destruct (b ++ [10]) as [|r rest] eqn:Eb; [destruct b; discriminate|]. simpl in H47, H42, Hnm.
-  pose proof (lex_all_ring_wf a init_lstate ring_wf_init) as W. rewrite Ha in W. simpl in W.
-  change (a ++ [47] ++ r :: rest) with (a ++ ([47] ++ [r]) ++ rest).
-  change (a ++ [32; 47; 32] ++ r :: rest) with (a ++ ([32; 47; 32] ++ [r]) ++ rest).
-  eapply frame; [exact Ha|]. apply junction_slash; try assumption; apply Z.eqb_neq; assumption.
-Qed.
-
-(* '/=' : no condition on what follows *)
-Lemma junction_slash_eq : forall s r,
-  l_state s = LNormal -> ring_wf s ->
-  Junction (lex_all s ([47; 61] ++ [r])) (lex_all s ([32; 47; 61; 32] ++ [r])).
-Proof.
-  intros s r Hst W.
-  simpl app. simpl lex_all.
-  rewrite (step_slash s Hst), (step_slash2 s 61 eq_refl eq_refl), (step_space s Hst).
-  destruct (dump_buffer s) as [x|] eqn:D; [|simpl; ds s; reflexivity].
-  destruct (dump_result _ _ D) as (Bx & Sx & Px & Rx).
-  assert (ring_wf x) as Wx by (eapply ring_wf_ringof; [symmetry; exact Rx|exact W]).
-  assert (l_state x = LNormal) as Stx by congruence.
-  rewrite (builtin_slash_eq x).
-  set (W1 := append_token (mkTok TSymbol [47; 61]) (set_state LNormal (slash_open 61 x))).
-  rewrite (step_normal W1 r) by (unfold W1; ds x; reflexivity).
-  set (x1 := ring_push 32 x).
-  assert (l_state x1 = LNormal) as S1 by (unfold x1; ds x; exact Stx).
-  assert (l_buffer x1 = []) as B1 by (unfold x1; ds x; exact Bx).
-  rewrite (step_slash x1 S1), (step_slash2 x1 61 eq_refl eq_refl), (dump_empty x1 B1).
-  rewrite (builtin_slash_eq x1).
-  set (W1' := append_token (mkTok TSymbol [47; 61]) (set_state LNormal (slash_open 61 x1))).
-  assert (lex_rune W1' 32 = LOk (ring_push 32 W1')) as E3.
-  { rewrite (step_space W1') by (unfold W1'; ds x; reflexivity).
-    rewrite dump_empty; [reflexivity|unfold W1', x1; ds x; exact Bx]. }
-  rewrite E3. clear E3.
-  rewrite (step_normal (ring_push 32 W1') r) by (unfold W1'; ds x; reflexivity).
-  match goal with |- Junction (match ?a with _ => _ end) (match ?b with _ => _ end) => assert (Rres a b) as HR end.
-  { apply lex_normal_R.
-    - unfold W1; ds x; reflexivity.
-    - unfold W1, W1', x1, R; ds x; simpl in *; subst. repeat split; intros; discriminate.
-    - unfold T.
-      assert (twoback (ring_push r W1) = 61) as ->.
-      { transitivity (twoback (ring_push r (ring_push 61 (ring_push 47 x)))); [unfold W1; ds x; reflexivity|].
-        apply twoback_push_push. apply ring_push_wf. exact Wx. }
-      assert (twoback (ring_push r (ring_push 32 W1')) = 32) as ->.
-      { transitivity (twoback (ring_push r (ring_push 32 (ring_push 61 (ring_push 47 (ring_push 32 x))))));
-          [unfold W1', x1; ds x; reflexivity|].
-        apply twoback_push_push. repeat apply ring_push_wf. exact Wx. }
-      exact cls_61. }
-  destruct (lex_normal _ r) as [u|u]; destruct (lex_normal _ r) as [u'|u']; simpl in *; try contradiction; [exact HR|apply HR].
-Qed.
-
-Theorem op_spacing_slash_eq : forall a b s,
-  lex_all init_lstate a = LOk s -> l_state s = LNormal ->
-  lex_text (a ++ [47; 61] ++ b ++ [10]) = lex_text (a ++ [32; 47; 61; 32] ++ b ++ [10]).
-Proof.
-  intros a b s Ha Hst.
-  destruct (b ++ [10]) as [|r rest] eqn:Eb; [destruct b; discriminate|].
-  pose proof (lex_all_ring_wf a init_lstate ring_wf_init) as W. rewrite Ha in W. simpl in W.
-  change (a ++ [47; 61] ++ r :: rest) with (a ++ ([47; 61] ++ [r]) ++ rest).
-  change (a ++ [32; 47; 61; 32] ++ r :: rest) with (a ++ ([32; 47; 61; 32] ++ [r]) ++ rest).
-  eapply frame; [exact Ha|]. apply junction_slash_eq; assumption.
-Qed.
-
-(* --- the fresh-assign-or-colon mode --- *)
-Definition colon_eq (s : lstate) : lstate :=
-  set_state LNormal (ring_push 61 (set_state LFreshAssignOrColon (ring_push 58 s))).
-
-Lemma step_colon : forall s, l_state s = LNormal ->
-  lex_rune s 58 = LOk (set_state LFreshAssignOrColon (ring_push 58 s)).
-Proof.
-  intros s H. rewrite lex_rune_body. unfold lex_body.
-  replace (l_state (ring_push 58 s)) with LNormal by (ds s; simpl in *; congruence). reflexivity.
-Qed.
-
-Lemma dump_colon_eq : forall s,
-  dump_buffer (colon_eq s) = match dump_buffer s with Some x => Some (colon_eq x) | None => None end.
-Proof.
-  intros s; ds s. unfold dump_buffer, colon_eq; simpl. destruct bf; [reflexivity|].
-  destruct (decode_atom _); reflexivity.
-Qed.
-
-Lemma step_colon_eq : forall s,
-  lex_rune (set_state LFreshAssignOrColon (ring_push 58 s)) 61 =
-    match dump_buffer s with
-    | Some x => LOk (append_token (mkTok TFreshAssign [58; 61]) (colon_eq x))
-    | None => LErr (colon_eq s)
-    end.
-Proof.
-  intros s. rewrite lex_rune_body. unfold lex_body.
-  replace (l_state (ring_push 61 (set_state LFreshAssignOrColon (ring_push 58 s)))) with LFreshAssignOrColon by (ds s; reflexivity).
-  unfold lex_freshassign. change (61 =? 61) with true. cbv iota. unfold with_dump.
-  change (set_state LNormal (ring_push 61 (set_state LFreshAssignOrColon (ring_push 58 s)))) with (colon_eq s).
-  rewrite dump_colon_eq. destruct (dump_buffer s); reflexivity.
-Qed.
-
-Lemma junction_fresh_assign : forall s r,
-  l_state s = LNormal -> ring_wf s ->
-  Junction (lex_all s ([58; 61] ++ [r])) (lex_all s ([32; 58; 61; 32] ++ [r])).
-Proof.
-  intros s r Hst W.
-  simpl app. simpl lex_all.
-  rewrite (step_colon s Hst), (step_colon_eq s), (step_space s Hst).
-  destruct (dump_buffer s) as [x|] eqn:D; [|simpl; ds s; reflexivity].
-  destruct (dump_result _ _ D) as (Bx & Sx & Px & Rx).
-  assert (ring_wf x) as Wx by (eapply ring_wf_ringof; [symmetry; exact Rx|exact W]).
-  assert (l_state x = LNormal) as Stx by congruence.
-  set (W1 := append_token (mkTok TFreshAssign [58; 61]) (colon_eq x)).
-  rewrite (step_normal W1 r) by (unfold W1; ds x; reflexivity).
-  set (x1 := ring_push 32 x).
-  assert (l_state x1 = LNormal) as S1 by (unfold x1; ds x; exact Stx).
-  assert (l_buffer x1 = []) as B1 by (unfold x1; ds x; exact Bx).
-  rewrite (step_colon x1 S1), (step_colon_eq x1), (dump_empty x1 B1).
-  set (W1' := append_token (mkTok TFreshAssign [58; 61]) (colon_eq x1)).
-  assert (lex_rune W1' 32 = LOk (ring_push 32 W1')) as E3.
-  { rewrite (step_space W1') by (unfold W1'; ds x; reflexivity).
-    rewrite dump_empty; [reflexivity|unfold W1', x1; ds x; exact Bx]. }
-  rewrite E3. clear E3.
-  rewrite (step_normal (ring_push 32 W1') r) by (unfold W1'; ds x; reflexivity).
-  match goal with |- Junction (match ?a with _ => _ end) (match ?b with _ => _ end) => assert (Rres a b) as HR end.
-  { apply lex_normal_R.
-    - unfold W1; ds x; reflexivity.
-    - unfold W1, W1', x1, R; ds x; simpl in *; subst. repeat split; intros; discriminate.
-    - unfold T.
-      assert (twoback (ring_push r W1) = 61) as ->.
-      { transitivity (twoback (ring_push r (ring_push 61 (ring_push 58 x)))); [unfold W1; ds x; reflexivity|].
-        apply twoback_push_push. apply ring_push_wf. exact Wx. }
-      assert (twoback (ring_push r (ring_push 32 W1')) = 32) as ->.
-      { transitivity (twoback (ring_push r (ring_push 32 (ring_push 61 (ring_push 58 (ring_push 32 x))))));
-          [unfold W1', x1; ds x; reflexivity|].
-        apply twoback_push_push. repeat apply ring_push_wf. exact Wx. }
-      exact cls_61. }
-  destruct (lex_normal _ r) as [u|u]; destruct (lex_normal _ r) as [u'|u']; simpl in *; try contradiction; [exact HR|apply HR].
-Qed.
-
-Theorem op_spacing_fresh_assign : forall a b s,
-  lex_all init_lstate a = LOk s -> l_state s = LNormal ->
-  lex_text (a ++ [58; 61] ++ b ++ [10]) = lex_text (a ++ [32; 58; 61; 32] ++ b ++ [10]).
-Proof.
-  intros a b s Ha Hst.
-  destruct (b ++ [10]) as [|r rest] eqn:Eb; [destruct b; discriminate|].
-  pose proof (lex_all_ring_wf a init_lstate ring_wf_init) as W. rewrite Ha in W. simpl in W.
-  change (a ++ [58; 61] ++ r :: rest) with (a ++ ([58; 61] ++ [r]) ++ rest).
-  change (a ++ [32; 58; 61; 32] ++ r :: rest) with (a ++ ([32; 58; 61; 32] ++ [r]) ++ rest).
-  eapply frame; [exact Ha|]. apply junction_fresh_assign; assumption.
-Qed.
